@@ -95,6 +95,9 @@ impl WorldB {
                 if adv >= 2 && rng.chance(1, 30) {
                     return Op::new(K_CROSSRESP, rng.below(8), rng.below(64), 0, rng.below(7));
                 }
+                if adv >= 2 && !self.flooded && rng.chance(1, 600) {
+                    return Op::new(K_FLOODSTEAL, rng.below(8), 0, 0, 0);
+                }
                 w[0] = 5;
                 w[10] = 2;
                 w[18] = 1;
@@ -103,6 +106,9 @@ impl WorldB {
             "session" => {
                 if rng.chance(1, 40) {
                     return Op::new(K_GENBURST, slot as u64, rng.below(2), rng.below(200), 0);
+                }
+                if adv >= 1 && rng.chance(1, 40) {
+                    return Op::new(K_STALEHS, slot as u64, rng.below(16), 0, 0);
                 }
                 w[7] = 25;
                 w[16] *= 2;
@@ -121,7 +127,7 @@ impl WorldB {
         match rng.weighted(&w) {
             0 => Op::new(K_NEWCLIENT, slot as u64, rng.below(8), self.pick_variant(rng), rng.below(16)),
             1 => Op::new(K_TICKCLIENT, slot as u64, self.pick_dt(rng), 0, 0),
-            2 => Op::new(K_TICKSERVER, self.pick_dt(rng), 0, 0, 0),
+            2 => Op::new(K_TICKSERVER, self.pick_dt(rng), if rng.chance(1, 4) { 1 } else { 0 }, 0, 0),
             3 => {
                 let keep = if dup > 0 && rng.below(100) < dup { 1 } else { 0 };
                 Op::new(K_DELIVER, slot as u64, dir as u64, self.pool_index(rng, in_flight), keep)
